@@ -1,6 +1,7 @@
 //! One module per group of properties.
 
 pub mod dynamic;
+pub mod encodings;
 pub mod sat;
 pub mod static_eval;
 pub mod store_io;
@@ -17,6 +18,7 @@ pub fn run(ctx: &mut Ctx, prop: &str) -> bool {
         "C04" => static_eval::run(ctx, static_eval::Prop::C04),
         "C07" => static_eval::run(ctx, static_eval::Prop::C07),
         "C08" | "C09" => dynamic::run(ctx, prop),
+        "C10" => encodings::run(ctx),
         "C15" => sat::run_c15(ctx),
         "C16" => sat::run_c16(ctx),
         "C17" => sat::run_c17(ctx),
@@ -36,6 +38,7 @@ pub fn replay(ctx: &mut Ctx, prop: &str, case: &Value, detail: &Value) -> Result
         "C04" => static_eval::replay(ctx, static_eval::Prop::C04, case, detail),
         "C07" => static_eval::replay(ctx, static_eval::Prop::C07, case, detail),
         "C08" | "C09" => dynamic::replay(ctx, prop, case),
+        "C10" => encodings::replay(ctx, case, detail),
         "C15" => sat::replay_c15(ctx, case),
         "C16" => sat::replay_c16(ctx, case, detail),
         "C17" => sat::replay_c17(ctx, case, detail),
